@@ -86,6 +86,12 @@ type CallersDecl struct {
 	Props       []string
 }
 
+// SameTypeDecl: two type expressions of a package must denote the same type.
+type SameTypeDecl struct {
+	Pkg, A, B string
+	Props     []string
+}
+
 type GlobalDecl struct {
 	Pkg, Name string
 	Kind      string // guarded_by, init-only, immutable, mutex
@@ -246,6 +252,13 @@ func (g *Gen) loadContractFile(path string) error {
 				}
 			}
 			g.globalsDecl[pkg+"."+f[0]] = gd
+		case "same-type":
+			// same-type [Cnn,...] <type expr> == <type expr>   -- the two expressions denote one type (an alias, not a new type)
+			m := regexp.MustCompile(`^\[([A-Z0-9, ]+)\]\s+(.*?)\s+==\s+(.*)$`).FindStringSubmatch(rest)
+			if m == nil {
+				return fmt.Errorf("%s:%d: bad same-type", path, ln)
+			}
+			g.sameTypes = append(g.sameTypes, &SameTypeDecl{Pkg: pkg, A: strings.TrimSpace(m[2]), B: strings.TrimSpace(m[3]), Props: parseProps(m[1])})
 		case "callers-of":
 			// callers-of <callee> [Cnn,...] : f1 f2 ...   -- the functions allowed to call <callee> directly
 			f := strings.Fields(rest)
